@@ -230,6 +230,19 @@ class Result:
         return dict(self.__dict__)
 
 
+def safe_step(model, ref, inp, obs):
+    """model.step, with an observation the reference model cannot interpret at all (it raises) reported as a violation."""
+    try:
+        return model.step(ref, inp, obs)
+    except HarnessError:
+        raise
+    except Exception as e:
+        import traceback
+        where = traceback.extract_tb(e.__traceback__)[-1]
+        return [f"model.cannot_follow: {type(e).__name__} at {where.name}:{where.lineno} - the circuit did something the "
+                f"reference model has no interpretation for"], ref
+
+
 def expand_chunk(drv: Driver, model, chunk, max_violations=3):
     """Expands every state of `chunk` (list of (idx, hw, ref)) with every valuation.  Returns
     (new: list of (key, parent idx, inp) de-duplicated inside the chunk in discovery order,
@@ -244,7 +257,7 @@ def expand_chunk(drv: Driver, model, chunk, max_violations=3):
         for inp in model.alphabet(ref):
             drv.restore(hw)
             obs = drv.apply(inp)
-            viols, nref = model.step(ref, inp, obs)
+            viols, nref = safe_step(model, ref, inp, obs)
             transitions += 1
             obs_seen.add(obs)
             if viols:
@@ -412,7 +425,7 @@ def replay_path(drv: Driver, model, path):
     ref = model.init()
     out = []
     for k, (inp, obs) in enumerate(zip(path, obs_list)):
-        viols, ref = model.step(ref, inp, obs)
+        viols, ref = safe_step(model, ref, inp, obs)
         if viols:
             out.append({"step": k, "input": inp, "obs": obs, "clauses": list(viols)})
             break
